@@ -452,6 +452,21 @@ func c13(x *mon.Ctx) {
 				world.Seq(world.OID(9), world.Octets([]byte{1, 2, 3, 4, 5, 6})), // unknown, the size of an FMSPC
 			}
 		}
+		// Configuration with any subset of its flags (each is optional), in any order, with a flag of a newer profile
+		for rep := 0; rep < 24; rep++ {
+			p := randPlat(r)
+			var flags [][]byte
+			for k := 0; k < 4; k++ {
+				if rep>>uint(k)&1 == 1 {
+					flags = append(flags, world.Seq(world.OID(7, k+1), world.TLV(1, []byte{[]byte{0, 0xff}[(rep+k)%2]})))
+				}
+			}
+			if rep >= 16 {
+				r.Shuffle(len(flags), func(a, b int) { flags[a], flags[b] = flags[b], flags[a] })
+			}
+			top := append(world.SgxTopElems(p, world.SgxTcbElems(p)), world.Seq(world.OID(5), world.TLV(0x0a, []byte{byte(rep % 3)})), world.Seq(world.OID(7), world.Seq(flags...)))
+			add("platform-certificate-extension", fmt.Sprintf("configuration-flags-%04b/%d", rep%16, rep), "exact", p, world.Seq(top...), nil)
+		}
 		for rep := 0; rep < 40; rep++ {
 			p := randPlat(r)
 			top := append(world.SgxTopElems(p, world.SgxTcbElems(p)), extra(p)...)
@@ -721,7 +736,7 @@ func c13(x *mon.Ctx) {
 	x.Require("nested-octet-string", 3, 16, 20)
 	x.Require("tcb-element-neighbouring-oid", 0, 0, 45)
 	x.Require("value-identifier-octet", 0, 1700, 1700)
-	x.Require("platform-certificate-extension", 40, 0, 40)
+	x.Require("platform-certificate-extension", 64, 0, 64)
 	x.Require("unread-field-of-any-type", 60, 0, 60)
 	x.Require("platform-certificate-wrong-type", 0, 105, 105)
 	x.Require("pcesvn-out-of-range", 0, 11, 11)
